@@ -1202,3 +1202,38 @@ def tracked_calls(prog):
 
     walk(prog.main)
     return out
+
+
+def scan_tracked_calls(text):
+    """the same set for a program given as TEXT only (shipped examples): a small scanner, independent of the real
+    parser - comments removed, then every `assert!(`, `panic!(`, `dbg!(`, `unwrap(`, `unwrap_left::<..>(`,
+    `unwrap_right::<..>(`, `jet::name(` with its balanced argument list.  Returns a set of (kind, text without
+    whitespace); dbg! is recorded with the text of its ARGUMENT (that is what the library tracks)."""
+    import re
+    src = re.sub(r"/\*.*?\*/", " ", text, flags=re.S)
+    src = re.sub(r"//[^\n]*", " ", src)
+    out = set()
+    pat = re.compile(r"(?<![A-Za-z0-9_])(assert!|panic!|dbg!|unwrap_left|unwrap_right|unwrap|jet::[a-z0-9_]+)\s*(::\s*<)?")
+    for m in pat.finditer(src):
+        head = m.group(1)
+        i = m.end()
+        if m.group(2):
+            depth = 1
+            while i < len(src) and depth:
+                depth += {"<": 1, ">": -1}.get(src[i], 0)
+                i += 1
+        while i < len(src) and src[i].isspace():
+            i += 1
+        if i >= len(src) or src[i] != "(":
+            continue
+        j, depth = i + 1, 1
+        while j < len(src) and depth:
+            depth += {"(": 1, ")": -1}.get(src[j], 0)
+            j += 1
+        if depth:
+            continue
+        kind = {"assert!": "Assert", "panic!": "Panic", "dbg!": "Debug", "unwrap": "Unwrap", "unwrap_left": "UnwrapLeft",
+                "unwrap_right": "UnwrapRight"}.get(head, "Jet")
+        body = src[i + 1:j - 1] if kind == "Debug" else src[m.start():j]
+        out.add((kind, _nows(body)))
+    return out
